@@ -61,6 +61,8 @@ var c14Hostile = []string{
 	`lamm = x => {{"a": 1, "b": 2}[x]}; lamd = (a, b) => {{"p": a}.p + b}; lamm2 = () => {{"a": 1}}; lamn = a => (b => a + b); lams = x => {{"a": [1, 2, 3]}.a[0:x]}; lamq = x => {{1: 2}[1] == x}`,
 	`func ql(x) {"\"" + x + "\"\n"}; qs = () => "a\"b\nc"; qt = x => "it's \"" + x + "\"\ttab"; qn = () => "line1\nline2"; qb = () => "back` + "`" + `tick\"q\"\n"`,
 	`func fal(a) {a + 1}; gal = fal; hal = gal`,
+	`func fz(x) {x + 1}; gz = fz; fz = 3`,
+	`func fy(x) {x + 1}; gy = fy; del(fy)`,
 	`bigs = "x" * 70000; zlast = 7`,
 	`gx = 1; func zz_setgx() {gx = 5}`,
 	`func vari(a, ..) {len(..) + a}`,
@@ -294,7 +296,7 @@ func (p c14) autoCycle(c *fw.Ctx, build []string) (kind, detail string) {
 	opts.AutoLoad, opts.AutoSave = true, true
 	opts.MaxValueLen = 4000
 	src := strings.Join(build, "\n")
-	if strings.Contains(src, "70000") {
+	if strings.Contains(src, "70000") || strings.Contains(src, "for 9998") {
 		opts.MaxValueLen = 0 // no limit: lines longer than a bufio.Scanner's default token size
 	}
 	_, errs, _ := repl.EvalStringWithOption(context.Background(), opts, src)
@@ -368,6 +370,12 @@ func (p c14) RunBatch(c *fw.Ctx) {
 	defer os.RemoveAll(dir)
 	_ = eval.DefaultMaxDepth
 	// the hostile fixed set, alone and all together (batch 0), then random subsets mixed with generated programs
+	if c.Batch == 1%c.NBatches {
+		// values nested up to and beyond what the parser reads back (they are saved only if they can be reloaded)
+		deep := []string{`dv = [1]; for 9998 {dv = [dv]}; dw = [1]; for 4899 {dw = [dw]}; dx = {}; for 4898 {dx = {"k": dx}}; dy = 1; for 4890 {dy = {dy: [1]}}; dz = [1]; for 4950 {dz = [dz]}`}
+		c.Begin(c14Case{Build: deep})
+		p.one(c, deep)
+	}
 	if c.Batch == 0 {
 		for _, h := range c14Hostile {
 			c.Begin(c14Case{Build: []string{h}})
